@@ -32,6 +32,8 @@ def run(ctx, rep):
     rep.section(m6, ctx, rep)
     rep.section(m7, ctx, rep)
     rep.section(m8, ctx, rep)
+    from . import c09 as _c09
+    rep.section(_c09.n8, ctx, rep)     # the rename resolver addresses the table by importing / current crate only (shared with C09)
 
 
 def m0_stateful_iterator(f):
